@@ -311,6 +311,34 @@ pub fn scan_imports(src: &str) -> Vec<ImportScan> {
     out
 }
 
+/// Field / input-field declarations inside the braces of the definition (or extension) whose
+/// name token is `toks[from]`, up to token index `to`: (field name, token index of the name).
+pub fn scan_field_decls(toks: &[Tok], from: usize, to: usize) -> Vec<(String, usize)> {
+    let mut out = Vec::new();
+    let (mut braces, mut parens) = (0i32, 0i32);
+    let mut i = from + 1;
+    while i < to.min(toks.len()) {
+        let t = &toks[i];
+        if t.kind == TokKind::Punct {
+            match t.text.as_str() {
+                "{" => braces += 1,
+                "}" => braces -= 1,
+                "(" => parens += 1,
+                ")" => parens -= 1,
+                _ => {}
+            }
+        } else if t.kind == TokKind::Name && braces == 1 && parens == 0 {
+            let next = toks.get(i + 1).map(|n| n.text.as_str());
+            let prev = if i > 0 { Some(toks[i - 1].text.as_str()) } else { None };
+            if (next == Some("(") || next == Some(":")) && prev != Some("@") {
+                out.push((t.text.clone(), i));
+            }
+        }
+        i += 1;
+    }
+    out
+}
+
 // ------------------------------------------------------------------ header scan
 
 #[derive(Clone, Debug)]
